@@ -14,10 +14,13 @@ TRUSTED_BASE = [
 ASSUMPTIONS = ["lattice inputs and integer cone matrices are exactly representable, so float decisions must equal the rational ones, boundaries included"]
 
 
-def cone_obj(W):
+def cone_obj(W, as_int=False):
+    """as the constructor does (self.W = np.array(W)), without the alpha SOCPs; integer matrices keep
+    their integer dtype when as_int (the class docstring itself uses an integer W)"""
     from vopy.ordering_cone import OrderingCone
     oc = OrderingCone.__new__(OrderingCone)
-    oc.W = np.array(W, dtype=float); oc.dim = oc.W.shape[1]; oc.alpha = None
+    oc.W = np.array(W) if as_int else np.array(W, dtype=float)
+    oc.dim = oc.W.shape[1]; oc.alpha = None
     return oc
 
 
@@ -80,9 +83,10 @@ def evaluate(ctx, cases):
     lines, impl = [], []
     cache = {}
     for cn, W, a, b in cases:
+        as_int = (len(cache) % 2 == 1)
         key = common.sha(W)
         if key not in cache:
-            oc = cone_obj(W)
+            oc = cone_obj(W, as_int)
             cache[key] = (oc, PolyhedralConeOrder(oc))
         oc, order = cache[key]
         fa, fb = np.array(gen.fl(a)), np.array(gen.fl(b))
